@@ -1210,5 +1210,7 @@ Stuck == mode = "idle" /\ ~disabled /\ fault = NoFaultRec
 Finished == \/ mode \in {"idle", "done"} /\ (ncalls >= PMaxCalls \/ mode = "done" \/ disabled)
                 /\ ~(status \in {ShortRead, ShortWrite, "supplied", "drained"} /\ mode = "idle" /\ ~disabled /\ fault = NoFaultRec)
             \/ Stuck
-ExportInv == Finished => PrintT(ToJson([prog |-> pi, fault |-> fault, input |-> src.data, hist |-> hist]))
+\* (th: the receiver's fields at the end of the history - the observable receiver state that the compiled C must show too)
+ExportInv == Finished => PrintT(ToJson([prog |-> pi, fault |-> fault, input |-> src.data, hist |-> hist,
+                                        th |-> [x \in Names(P.fields) |-> th[x]]]))
 =============================================================================
